@@ -892,8 +892,9 @@ def run_program(ctx, params, steps, confirm=True) -> None:
                 labels.add('pair_in_flight')
                 verdicts = []
                 for c, pl in ((cell, plan), (second, plan2)):
+                    # a leak is attributed to the request on whose bearer it arrived
                     g = {'fixed': got['fixed'] if c[4] == 'fixed' else [], 'eatt': got['eatt'] if c[4] == 'eatt' else [],
-                         'all': got['all']}
+                         'all': got[c[4]] if c is second else [x for x in got['all'] if x not in got[second[4]]]}
                     verdicts += judge(env, c, pl, g, after, [])
                 case = {'kind': 'program', 'world': _non_default(params), 'cells': [step]}
                 for sig, what in verdicts:
